@@ -10,11 +10,13 @@ Emits
   * the --width cut                                                 width_cut (width path_id : Z) : bool
   * the verdict chain over the solver-answer counter                verdict (n_sat n_err n_unknown n_stuck normal : Z) : Z
   * setup(): which explored paths count as successful               setup_path_ok (has_error is_stuck : bool) : bool
+    which dropped paths are reported by an unconditional
+    INTERNAL_ERROR warning                                           setup_reports (has_error is_stuck : bool) : bool
     and which success path is kept given the solver answer           setup_keeps (r : Z) : bool
   * which of setup / run_test / run_target_function turn a non-empty
     `logs.bounded_loops` into the LOOP_BOUND warning                setup_warns_loop_bound, test_warns_loop_bound,
                                                                     target_warns_loop_bound : bool
-Solver answers: unsat = 0, sat = 1, unknown = 2, err = 3.  Fail-closed.
+Solver answers: unsat = 0, sat = 1, unknown = 2, err = 3 (also: the solver call failed); 4 = interrupted by ShutdownError.  Fail-closed.
 """
 import ast
 
@@ -185,6 +187,7 @@ def _classification(fn):
     arms = []  # (cond, class)
     node = chain
     stuck_filter = None
+    stuck_shutdown_breaks = stuck_failure_counts = False
     normal_name = stuck_name = None
     while True:
         cond = _truthy(tr, _Sub(table).visit(_inline(node.test, defs)))
@@ -199,14 +202,47 @@ def _classification(fn):
             if len(apps) != 1:
                 raise TranslateError("run_test: stuck arm: expected exactly one append")
             stuck_name = apps[0].func.value.id
-            local = {}
-            for st in node.body:
-                if isinstance(st, ast.Assign) and len(st.targets) == 1 and isinstance(st.targets[0], ast.Name):
-                    local[st.targets[0].id] = ast.unparse(st.value)
-            test = _inline(inner[0].test, {k: v for k, v in local.items() if v.startswith("solve_low_level(")})
+            # where the solver answer comes from: `<v> = solve_low_level(...)` directly in the arm, or inside
+            #   try: <v> = solve_low_level(...)
+            #   except ShutdownError: ...; break                          (early exit: the path loop ends)
+            #   except Exception [as e]: ...; <v> = SolverOutput.from_error(...)   (a failed solve is an `err` answer)
+            is_solve = lambda st: (isinstance(st, ast.Assign) and len(st.targets) == 1 and isinstance(st.targets[0], ast.Name)  # noqa: E731
+                                   and _calls(st.value, "solve_low_level"))
+            direct = [st for st in node.body if is_solve(st)]
+            tries = [st for st in node.body if isinstance(st, ast.Try)]
+            if len(direct) == 1 and not tries:
+                v = direct[0].targets[0].id
+                stuck_shutdown_breaks, stuck_failure_counts = False, False
+            elif not direct and len(tries) == 1:
+                t = tries[0]
+                if len(t.body) != 1 or not is_solve(t.body[0]) or t.orelse or t.finalbody:
+                    raise TranslateError("run_test: stuck arm: the try must contain exactly `<v> = solve_low_level(...)`")
+                v = t.body[0].targets[0].id
+                stuck_shutdown_breaks, stuck_failure_counts = False, False
+                for k, h in enumerate(t.handlers):
+                    ty = ast.unparse(h.type) if h.type is not None else None
+                    assigns_v = [m for m in ast.walk(h) if isinstance(m, ast.Assign) and any(isinstance(x, ast.Name) and x.id == v for x in m.targets)]
+                    if ty == "ShutdownError" and k == 0:
+                        if not isinstance(h.body[-1], ast.Break) or assigns_v or _contains(h.body[:-1], lambda n: isinstance(n, (ast.Break, ast.Continue, ast.Return, ast.Raise))):
+                            raise TranslateError("run_test: stuck arm: `except ShutdownError` must end the path loop with a single final `break`")
+                        stuck_shutdown_breaks = True
+                    elif ty == "Exception" and k == len(t.handlers) - 1:
+                        last = h.body[-1]
+                        if not (isinstance(last, ast.Assign) and len(assigns_v) == 1 and assigns_v[0] is last and _calls(last.value, "SolverOutput.from_error")):
+                            raise TranslateError("run_test: stuck arm: `except Exception` must end with `<v> = SolverOutput.from_error(...)`")
+                        if _contains(h.body, lambda n: isinstance(n, (ast.Break, ast.Continue, ast.Return, ast.Raise))):
+                            raise TranslateError("run_test: stuck arm: `except Exception` leaves the arm")
+                        stuck_failure_counts = True
+                    else:
+                        raise TranslateError(f"run_test: stuck arm: unexpected handler `except {ty}` at position {k}")
+            else:
+                raise TranslateError("run_test: stuck arm: expected one `<v> = solve_low_level(...)` (directly or inside one try)")
+            if node.body.index(inner[0]) < node.body.index((direct + tries)[0]):
+                raise TranslateError("run_test: stuck arm: the filter precedes the solver call")
+            test = inner[0].test
             t2 = Translator(names={"r": "r"}, consts={"unsat": 0, "sat": 1, "unknown": 2})
-            sub = {src: "r" for src in {ast.unparse(n) for n in ast.walk(test) if isinstance(n, ast.Attribute) and n.attr == "result" and _calls(n.value, "solve_low_level")}}
-            if not sub:
+            sub = {f"{v}.result": "r"}
+            if not any(isinstance(n, ast.Attribute) and ast.unparse(n) == f"{v}.result" for n in ast.walk(test)):
                 raise TranslateError("run_test: stuck arm: the filter does not look at solve_low_level(...).result")
             stuck_filter = _truthy(t2, _Sub(sub).visit(test))
             arms.append((cond, "stuck"))
@@ -239,7 +275,7 @@ def _classification(fn):
         raise TranslateError("run_test: --width cut now precedes the classification of the path")
     tw = Translator(names={"width": "width", "path_id": "path_id"})
     wtext = _truthy(tw, _Sub({"args.width": "width"}).visit(width.test))
-    return text, stuck_filter, wtext, normal_name, stuck_name
+    return text, stuck_filter, wtext, normal_name, stuck_name, stuck_shutdown_breaks, stuck_failure_counts
 
 
 def _is_nonempty_test(test, expr):
@@ -323,7 +359,8 @@ def _setup_selection(fn):
     """setup(): which explored paths of setUp count as successful, and which of several are kept.
 
         for path_id, setup_ex in enumerate(setup_exs_all):
-            if <T(setup_ex)>: ... else: setup_exs_no_error.append((setup_ex, <query>))     -> setup_path_ok
+            if <T1(setup_ex)>: ... [elif <T2(setup_ex)>: ...] else: setup_exs_no_error.append((setup_ex, <query>))
+                                                                                      -> setup_path_ok, setup_reports
         match setup_exs_no_error:
             case []: pass
             case [(ex, _)]: setup_exs.append(ex)
@@ -333,7 +370,7 @@ def _setup_selection(fn):
                     if <F(solver_output.result)>: setup_exs.append(ex); if len(setup_exs) > 1: break  -> setup_keeps
         match len(setup_exs): case 0: raise ...; case n if n > 1: raise ...
         [setup_ex] = setup_exs
-    -> (setup_path_ok : has_error is_stuck -> bool, setup_keeps : Z -> bool)"""
+    -> (setup_path_ok, setup_keeps : Z -> bool, setup_reports)  -- path_ok / reports : has_error is_stuck -> bool"""
     loops = [st for st in fn.body if isinstance(st, ast.For) and ast.unparse(st.iter) == "enumerate(setup_exs_all)"]
     if len(loops) != 1 or ast.unparse(loops[0].target) != "(path_id, setup_ex)" or loops[0].orelse:
         raise TranslateError("setup: `for path_id, setup_ex in enumerate(setup_exs_all)` not found (once, at the top level)")
@@ -341,19 +378,54 @@ def _setup_selection(fn):
     apps = [n for n in ast.walk(fn) if isinstance(n, ast.Call) and ast.unparse(n.func) == "setup_exs_no_error.append"]
     if len(apps) != 1 or not ast.unparse(apps[0].args[0]).startswith("(setup_ex, setup_ex.path.to_smt2("):
         raise TranslateError("setup: expected exactly one `setup_exs_no_error.append((setup_ex, setup_ex.path.to_smt2(...)))`")
-    sel = [st for st in loops[0].body if isinstance(st, ast.If) and (any(is_app(x) for x in st.body) or any(is_app(x) for x in st.orelse))]
+    def in_chain(st):
+        """the arms of an if / elif / ... / else chain: [(test | None, body)]"""
+        arms = []
+        while True:
+            arms.append((st.test, st.body))
+            if len(st.orelse) == 1 and isinstance(st.orelse[0], ast.If):
+                st = st.orelse[0]
+                continue
+            arms.append((None, st.orelse))
+            return arms
+
+    sel = [st for st in loops[0].body if isinstance(st, ast.If) and any(any(is_app(x) for x in body) for _, body in in_chain(st))]
     if len(sel) != 1:
-        raise TranslateError("setup: the success-path test (the if around setup_exs_no_error.append) must sit directly in the loop over the explored paths")
+        raise TranslateError("setup: the success-path test (the if / elif chain with setup_exs_no_error.append directly in one arm) must sit directly in the loop over the explored paths")
     for st in loops[0].body:
         if st is not sel[0] and _contains([st], lambda n: isinstance(n, (ast.Continue, ast.Break, ast.Return, ast.Raise))):
             raise TranslateError("setup: control may leave the loop over the explored paths before the success-path test")
     table = {"setup_ex.context.output.error": "has_error", "setup_ex.context.is_stuck()": "is_stuck"}
     tr = Translator(bool_names={"has_error", "is_stuck"})
-    test = _truthy(tr, _Sub(table).visit(_strip_walrus(sel[0].test)))
-    in_body = any(is_app(x) for x in sel[0].body)
-    if _contains(sel[0].body if in_body else sel[0].orelse, lambda n: isinstance(n, (ast.Continue, ast.Break, ast.Return, ast.Raise))):
-        raise TranslateError("setup: the success arm leaves the loop")
-    path_ok = test if in_body else f"(negb {test})"
+    arms = in_chain(sel[0])
+    for _, body in arms:
+        if _contains(body, lambda n: isinstance(n, (ast.Continue, ast.Break, ast.Return, ast.Raise))):
+            raise TranslateError("setup: an arm of the success-path test leaves the loop over the explored paths")
+    tests = [None if t is None else _truthy(tr, _Sub(table).visit(_strip_walrus(t))) for t, _ in arms]
+
+    def taken(k):
+        """condition under which arm k is the one executed"""
+        parts = [f"(negb {t})" for t in tests[:k]] + ([tests[k]] if tests[k] is not None else [])
+        if not parts:
+            return "true"
+        text = parts[-1]
+        for q in reversed(parts[:-1]):
+            text = f"(andb {q} {text})"
+        return text
+
+    ok_arms = [k for k, (_, body) in enumerate(arms) if any(is_app(x) for x in body)]
+    if len(ok_arms) != 1:
+        raise TranslateError("setup: the success arm is not unique")
+    path_ok = taken(ok_arms[0])
+    # an arm REPORTS the path when its first statement (unconditionally) is warn_code(INTERNAL_ERROR, ...), not de-duplicated
+    def reports(body):
+        return bool(body) and isinstance(body[0], ast.Expr) and _calls(body[0].value, "warn_code") and body[0].value.args \
+            and ast.unparse(body[0].value.args[0]) == "INTERNAL_ERROR" and not _dedup_kw(body[0].value)
+
+    rep_text = "false"
+    for k in reversed(range(len(arms))):
+        if k != ok_arms[0] and reports(arms[k][1]):
+            rep_text = f"(orb {taken(k)} {rep_text})"
     # the selection among several success paths
     matches = [st for st in fn.body if isinstance(st, ast.Match)]
     if len(matches) != 2 or ast.unparse(matches[0].subject) != "setup_exs_no_error" or ast.unparse(matches[1].subject) != "len(setup_exs)":
@@ -382,7 +454,7 @@ def _setup_selection(fn):
     after = [ast.unparse(st) for st in fn.body[fn.body.index(matches[1]) + 1:]]
     if not after or after[0] != "[setup_ex] = setup_exs" or after[-1] != "return setup_ex":
         raise TranslateError("setup: the selected state is not `[setup_ex] = setup_exs ... return setup_ex`")
-    return path_ok, keeps
+    return path_ok, keeps, rep_text
 
 
 def translate(src_text):
@@ -391,14 +463,14 @@ def translate(src_text):
     run_test = find_function(tree, "run_test")
     setup = find_function(tree, "setup")
     target = find_function(tree, "run_target_function")
-    classify, stuck_filter, width, normal_name, stuck_name = _classification(run_test)
+    classify, stuck_filter, width, normal_name, stuck_name, stuck_shutdown_breaks, stuck_failure_counts = _classification(run_test)
     verdict = _verdict(run_test, codes, normal_name, stuck_name)
     logs_names = [st.targets[0].id for st in run_test.body if isinstance(st, ast.Assign) and len(st.targets) == 1 and isinstance(st.targets[0], ast.Name) and ast.unparse(st.value) == "sevm.logs"]
     test_warns = any(_warns_loop_bound(run_test, x) for x in logs_names + ["sevm.logs"])
     setup_warns = _warns_loop_bound(setup, "sevm.logs")
     target_warns = _target_warns_loop_bound(target)
-    setup_path_ok, setup_keeps = _setup_selection(setup)
-    info = {"exitcodes": codes, "test_warns": test_warns, "setup_warns": setup_warns, "target_warns": target_warns}
+    setup_path_ok, setup_keeps, setup_reports = _setup_selection(setup)
+    info = {"exitcodes": codes, "stuck_failure_counts": stuck_failure_counts, "test_warns": test_warns, "setup_warns": setup_warns, "target_warns": target_warns}
     b = lambda x: "true" if x else "false"  # noqa: E731
     lines = [
         "(* GENERATED by translate/t_runtest.py from run_test / setup / run_target_function in src/halmos/__main__.py -- do not edit *)",
@@ -406,6 +478,8 @@ def translate(src_text):
         "Open Scope Z_scope.",
         "",
         "Definition S_UNSAT : Z := 0.  Definition S_SAT : Z := 1.  Definition S_UNKNOWN : Z := 2.  Definition S_ERR : Z := 3.",
+        "(* not an answer: the solver call was interrupted by ShutdownError (early exit) *)",
+        "Definition S_SHUTDOWN : Z := 4.",
         "",
     ]
     for k, v in codes.items():
@@ -420,6 +494,11 @@ def translate(src_text):
         "Definition stuck_counts (r : Z) : bool :=",
         f"  {stuck_filter}.",
         "",
+        "(* confirming a stuck path: a ShutdownError (early exit) ends the path loop; any other failure of the solver call",
+        "   becomes an `err` answer (SolverOutput.from_error) instead of escaping run_test *)",
+        f"Definition stuck_shutdown_breaks : bool := {b(stuck_shutdown_breaks)}.",
+        f"Definition stuck_failure_counts : bool := {b(stuck_failure_counts)}.",
+        "",
         "Definition width_cut (width path_id : Z) : bool :=",
         f"  {width}.",
         "",
@@ -429,6 +508,10 @@ def translate(src_text):
         "(* setup(): an explored path of setUp counts as successful; a success path is kept given the solver answer on its query *)",
         "Definition setup_path_ok (has_error is_stuck : bool) : bool :=",
         f"  {setup_path_ok}.",
+        "",
+        "(* the path is dropped with an unconditional INTERNAL_ERROR warning *)",
+        "Definition setup_reports (has_error is_stuck : bool) : bool :=",
+        f"  {setup_reports}.",
         "",
         "Definition setup_keeps (r : Z) : bool :=",
         f"  {setup_keeps}.",
@@ -448,4 +531,10 @@ def selfcheck(info):
     real = {e.name: e.value for e in Exitcode}
     if real != info["exitcodes"]:
         bad.append(f"Exitcode: translated {info['exitcodes']} but the module has {real}")
+    if info.get("stuck_failure_counts"):
+        from halmos.solve import SolverOutput
+
+        r = SolverOutput.from_error(RuntimeError("x"), path_id=0, query_file="f").result
+        if r != "err":
+            bad.append(f"SolverOutput.from_error(...).result is {r!r}, translated as the `err` answer")
     return bad
